@@ -5,6 +5,7 @@ use serde_json::{json, Value};
 
 pub mod disk;
 pub mod env;
+pub mod model;
 
 pub fn worker_init(_ctx: &mut WorkerCtx) {}
 
@@ -12,6 +13,7 @@ pub fn run_job(ctx: &mut WorkerCtx, job: &Value) -> JobOutput {
     match job["t"].as_str().unwrap_or("") {
         "disk" => disk::run(ctx, job),
         "env" => env::run(ctx, job),
+        "model" => model::run(ctx, job),
         "canary_abort" => {
             // selftest only: a worker death must be attributed to the job in flight
             std::process::abort();
